@@ -64,3 +64,19 @@ Section DescEqOrd.
     | c => EqOrdModel.Ok c
     end.
 End DescEqOrd.
+
+(* ------------------------------------------------------------------ the spend-info cache of Tr
+   `Tr` carries `spend_info: Mutex<Option<Arc<TrSpendInfo>>>`, filled lazily by spend_info() / script_pubkey() /
+   address(); `Clone` copies the Arc.  It is run-time state: a descriptor value is (structure, cache).
+   `impl PartialEq / Ord / Hash for Tr` read `internal_key` and `tree` only -- the cache is not an input. *)
+Record cdesc := mkCD { cd_desc : desc; cd_cache : option N }.      (* the cached output key, abstractly *)
+
+Definition cd_fresh (x : desc) : cdesc := mkCD x None.                       (* parsed / constructed *)
+Definition cd_warm (spend : desc -> N) (x : cdesc) : cdesc :=                (* after spend_info() *)
+  mkCD (cd_desc x) (Some (spend (cd_desc x))).
+Definition cd_clone (x : cdesc) : cdesc := mkCD (cd_desc x) (cd_cache x).   (* Clone for Tr: key, tree, Arc::clone of the cache *)
+
+Definition cdesc_eq (meq : ms -> ms -> bool) (a b : cdesc) : bool := desc_eq meq (cd_desc a) (cd_desc b).
+Definition cdesc_cmp (mcmp : (key -> key -> comparison) -> ms -> ms -> outcome comparison)
+           (kf kx : key -> key -> comparison) (a b : cdesc) : outcome comparison :=
+  desc_cmp mcmp kf kx (cd_desc a) (cd_desc b).
